@@ -200,6 +200,11 @@ def main():
             for cap in (False, True):
                 chk.add(rigid_section_velocity, grid_kind="surface", body_kind="rod", dim=3, n_elems=ne, taper=taper, grid_kw={"density": 4, "cap": cap})
                 chk.add(marker_radius, grid_kind="surface", n_elems=ne, taper=taper, grid_kw={"density": 4, "cap": cap})
+    # a forcing grid of the same class built earlier in the process for another body (other element count / marker density)
+    chk.add(rigid_section_velocity, grid_kind="nodal", body_kind="rod", dim=3, n_elems=2, taper="uniform", grid_kw={}, _earlier=[{"n_elems": 3}, {"dim": 2}])
+    chk.add(rigid_section_velocity, grid_kind="surface", body_kind="rod", dim=3, n_elems=2, taper="uniform", grid_kw={"density": 4, "cap": True}, _earlier=[{"grid_kw": {"density": 6, "cap": False}, "n_elems": 3}])
+    chk.add(rigid_section_velocity, grid_kind="cylinder2d", body_kind="cylinder", dim=2, n_elems=1, taper="uniform", grid_kw={"n": 5}, _earlier=[{"grid_kw": {"n": 3}}])
+    chk.add(rigid_section_velocity, grid_kind="sphere", body_kind="sphere", dim=3, n_elems=1, taper="uniform", grid_kw={"n": 6}, _earlier=[{"grid_kw": {"n": 4}}, {"grid_kind": "plane", "body_kind": "plane", "grid_kw": {"n": 3}}])
     for gk, bk, dim, kw in (("cylinder2d", "cylinder", 2, {"n": 5}), ("cylinder3d", "cylinder", 3, {"n": 2}), ("sphere", "sphere", 3, {"n": 6}), ("plane", "plane", 3, {"n": 3})):
         chk.add(rigid_section_velocity, grid_kind=gk, body_kind=bk, dim=dim, n_elems=1, taper="uniform", grid_kw=kw)
         chk.add(body_fixed_markers_follow_the_pose, grid_kind=gk, body_kind=bk, dim=dim, grid_kw=kw)
